@@ -184,7 +184,14 @@ func (repo *StoragePeerRepository) Load(ctx context.Context) error {
 		return errors.Wrap(err, "Failed to read peers count")
 	}
 
-	// Reset
+	if count < 0 {
+		return errors.New("Invalid peer count")
+	}
+
+	// Reset. The count is not trusted for more than the data can contain.
+	if maxCount := int32(buffer.Len() / 12); count > maxCount {
+		count = maxCount
+	}
 	repo.list = make(PeerList, 0, count)
 
 	// Parse peers
@@ -261,6 +268,13 @@ func readPeer(r io.Reader, version uint8) (Peer, error) {
 	var addressSize int32
 	if err := binary.Read(r, binary.LittleEndian, &addressSize); err != nil {
 		return result, err
+	}
+
+	if addressSize < 0 {
+		return result, errors.New("Invalid address size")
+	}
+	if l, ok := r.(interface{ Len() int }); ok && int(addressSize) > l.Len() {
+		return result, io.ErrUnexpectedEOF // more than the remaining data
 	}
 
 	addressData := make([]byte, addressSize)
